@@ -518,3 +518,46 @@ Proof.
   intros Hb Hev H0 H1 Hw Hd.
   start_step Hb Hw Hd; reflexivity.
 Qed.
+
+(* ---- DIVXU.W (divisor non-zero, quotient fits) ---- *)
+Theorem step_divxu_w_proof s w w1 w2 w3 w4 rs rd n s' :
+  cpu_ok s -> bus_bytes_ok s -> fault s = false -> pc s mod 2 = 0 -> 0 <= pc s -> pc s + 2 < 4294967296 ->
+  mem_read SW s (pc s) = Some w ->
+  decode_ref w w1 w2 w3 w4 = Some (IDivxu SW rs rd, 2) ->
+  sem_ref (IDivxu SW rs rd) 2 s = Some s' ->
+  mul_suffix SW (post_fetch s) = Ok n (post_fetch s) ->
+  step s = Ok n (set_opc (pc s) s').
+Proof.
+  intros Hok Hb Hf Hev H0 H1 Hw Hd Hsem Hcs. destruct Hok as [Hregs Hccr].
+  start_step Hb Hw Hd; try (destruct s0; simpl in Hag; discriminate Hag).
+  destruct s0; try (simpl in Hag; discriminate Hag).
+  cbn [agree] in Hag. repeat (apply andb_true_iff in Hag; destruct Hag as [Hag ?]).
+  pose proof (nib_range w 3) as R3. pose proof (nib_range w 4) as R4.
+  assert (Es1 : rs = nib w 3) by lia. assert (Ed : rd = nib w 4) by lia.
+  assert (Ed7 : Z.land (nib w 4) 7 = rd) by lia.
+  assert (Rrd : 0 <= rd < 8).
+  { rewrite <- Ed7. change 7 with (2^3 - 1). rewrite land_ones_mod by lia. change (2^3) with 8. lia. }
+  cbn [sem_ref] in Hsem. cbv zeta in Hsem.
+  destruct ((reg16 s rs =? 0) || (65536 <=? reg32 s rd / reg16 s rs)) eqn:Edom; [discriminate Hsem|].
+  apply orb_false_iff in Edom. destruct Edom as [Ez Eq].
+  pose proof (reg16_range s rs) as Ra. pose proof (Hregs rd) as Rb. unfold word32 in Rb. fold (reg32 s rd) in Rb.
+  cbn [run_tag]. rewrite Ed7. rewrite <- Es1.
+  unfold bind at 1. rewrite read_rn_l_spec by lia. unfold bind at 1. rewrite read_rn_w_spec by lia. unfold bind at 1. unfold get_ccr.
+  change (reg32 (post_fetch s) rd) with (reg32 s rd). change (reg16 (post_fetch s) rs) with (reg16 s rs). change (ccr (post_fetch s)) with (ccr s).
+  rewrite (divxu_spec 16) by (try (right; reflexivity); try (change (2^(2*16)) with 4294967296); try (change (2^16) with 65536); try assumption; lia).
+  unfold bind at 1. unfold put_ccr, modify. unfold bind at 1.
+  rewrite write_rn_l_spec by lia.
+  fold (mul_suffix SW).
+  (apply (f_equal (fun o => match o with Some x => x | None => s' end)) in Hsem; cbv beta iota in Hsem; subst s').
+  change (2^16) with 65536.
+  assert (Hfin : set_reg32 (set_ccr (set_flag fZ false (set_flag fN (neg_bit 16 (reg16 s rs)) (ccr s))) (post_fetch s)) rd
+                   (reg32 s rd mod reg16 s rs * 65536 + reg32 s rd / reg16 s rs) =
+                 set_opc (pc s) (with_pc (pc s + 2) (with_ccr (set_flag fZ false (set_flag fN (neg_bit 16 (reg16 s rs)) (ccr s)))
+                   (set_reg32 s rd (reg32 s rd mod reg16 s rs * 65536 + reg32 s rd / reg16 s rs))))) by reflexivity.
+  rewrite Hfin.
+  set (fin := set_opc (pc s) (with_pc (pc s + 2) (with_ccr (set_flag fZ false (set_flag fN (neg_bit 16 (reg16 s rs)) (ccr s)))
+                   (set_reg32 s rd (reg32 s rd mod reg16 s rs * 65536 + reg32 s rd / reg16 s rs))))) in *.
+  assert (Hcs' : mul_suffix SW fin = Ok n fin).
+  { rewrite <- Hfin. unfold set_reg32. apply mul_suffix_regs. apply mul_suffix_ccr. exact Hcs. }
+  rewrite Hcs'. unfold finish. subst fin. unfold with_pc, with_ccr, set_reg32. cbn [fault set_opc set_pc set_ccr set_regs]. rewrite Hf. reflexivity.
+Qed.
